@@ -119,6 +119,7 @@ def run(ctx):
     run.extra["lock_sites"] = sum(len(v) for v in la.sites.values())
     run.extra["transparent_readers"] = sorted(pp.short(x) for x in st.readers)[:40]
 
+    nc_reach = c._may_reach(ctx, [lambda n: n.startswith(c.LW + "types::NodeClient::")])
     R1 = "C20.R1"
     run.rule(R1, "no stale write-back: a record read in one wallet-lock section is not written in another", floor=20)
     managers = [f for fid, f in sorted(db.fns.items()) if not non_production(fid) and is_lock_managing(f) and f.dk in ("Fn", "AssocFn")]
@@ -186,6 +187,24 @@ def run(ctx):
                     if g_.ok and cfg.must_pass(f, g_.ok, {b})[0]:
                         conds.add((ct.get("f") or "").split("::")[-1])
             what += " [only after %s answered]" % "+".join(sorted(conds)) if conds else " [not conditional on a node reply]"
+            # how old can the snapshot be: node round trips (made with the wallet lock released) between read and write
+            if sb is not None and sb != b:
+                fwd = cfg.reach(f, starts=[f.bbs[sb]["t"]["t"]]) if f.bbs[sb]["t"].get("t") is not None else {}
+                between = [bb_ for bb_ in fwd if bb_ != b and b in cfg.reach(f, starts=[bb_])]
+                trips = set()
+                for bb_ in between:
+                    tt = f.bbs[bb_]["t"]
+                    if tt["k"] != "call":
+                        continue
+                    n_ = tt.get("f") or ""
+                    if n_.startswith(c.LW + "types::NodeClient::"):
+                        trips.add(n_.split("::")[-1])
+                    else:
+                        for cal, _k in ctx.cg.targets_of_call(tt):
+                            if cal in nc_reach:
+                                trips.add("via " + pp.short(cal).split("::")[-1])
+                if trips:
+                    what += " [snapshot spans node round trips: %s]" % "+".join(sorted(trips))
             if what in seen_keys:
                 continue
             seen_keys.add(what)
